@@ -50,8 +50,12 @@ type nameSpace struct {
 	// steps counts the template nodes visited by the analysis started by the current
 	// Execute call.
 	steps int
-	// depth is the nesting depth of the node that the analysis is at.
-	depth int
+	// depth is the nesting depth of the node that the analysis is at, maxDepth the largest
+	// depth reached since the analysis of the current template started.
+	depth, maxDepth int
+	// height holds, per analysed (mangled) template name, the depth that its analysis
+	// reached below the call.
+	height map[string]int
 	// cost holds, per analysed (mangled) template name, the number of nodes that its
 	// analysis visited.
 	cost map[string]int
